@@ -109,6 +109,24 @@ impl RequestHandler<Rename> for RenameHandler {
             DefinitionType::Filename(_) => Ok(None),
             DefinitionType::Symbol(def_symbol_nx) => {
                 if let Some(location) = &def.location {
+                    let source_text = |span| {
+                        let sl = codegen.analysis().look_up(span);
+                        sl.file.source_slice(span).to_string()
+                    };
+
+                    // The name the symbol goes by in the scope it was defined in. A symbol the assembler made up (the 'index' of
+                    // a loop, the '-' and '+' of a block) is not written down where it is defined, so there is nothing to rename.
+                    let old_name = codegen
+                        .symbols()
+                        .children(location.parent_scope)
+                        .into_iter()
+                        .find(|(_, nx)| *nx == def_symbol_nx)
+                        .map(|(id, _)| id);
+                    let old_name = match old_name {
+                        Some(id) if source_text(location.span) == id.as_str() => id,
+                        _ => return Ok(None),
+                    };
+
                     // First, determine all the query steps for every usage
                     let steps = def
                         .usages()
@@ -167,12 +185,29 @@ impl RequestHandler<Rename> for RenameHandler {
                     let changes = def
                         .definition_and_usages()
                         .into_iter()
-                        .map(|dl| {
-                            let loc = to_location(codegen.analysis().look_up(dl.span));
+                        .filter_map(|dl| {
+                            let text = source_text(dl.span);
+                            if Identifier::from(text.as_str()).is_super() {
+                                // 'super' is a way to get at the symbol, not its name
+                                return None;
+                            }
+                            // An import records the whole of 'name as alias': only the name is to be replaced
+                            let is_aliased = text
+                                .strip_prefix(old_name.as_str())
+                                .map(|rest| rest.starts_with(char::is_whitespace))
+                                .unwrap_or_default();
+                            let span = match is_aliased {
+                                true => dl.span.subspan(0, old_name.as_str().len() as u64),
+                                false => dl.span,
+                            };
+                            Some((dl, span, is_aliased))
+                        })
+                        .map(|(dl, span, is_aliased)| {
+                            let loc = to_location(codegen.analysis().look_up(span));
 
                             // We either grab a renamed usage, or we fallback to the name specified by the user for the source definition
                             let new_text = match new_paths.get(dl) {
-                                Some(new_path) => new_path.to_string(),
+                                Some(new_path) if !is_aliased => new_path.to_string(),
                                 _ => params.new_name.clone(),
                             };
 
